@@ -2,8 +2,10 @@
 # Validation aid (never registered): applies each behaviour-preserving refactoring under $1 (dirs with patch.diff) to a
 # scratch worktree of /repo and runs all 19 quick checks; every VIOLATION line printed is a false alarm to repair.
 cd /verif
+# a private copy of the tool: the matrix takes long and bin/jsverif may be rebuilt meanwhile
+SNAP=$(mktemp /tmp/jsverif-snap.XXXXXX); cp "${JSVERIF_BIN:-/verif/bin/jsverif}" "$SNAP"; chmod +x "$SNAP"; export JSVERIF_BIN="$SNAP"; trap 'rm -f "$SNAP"' EXIT
 one() {
-  d="$1"; id=$(echo "$d" | sed -E 's#.*/([A-Z])[/-](r[0-9]+)$#\1-\2#')
+  d="$1"; id=$(echo "$d" | sed -E 's#.*/([A-Z]+)[/-](r[0-9]+)$#\1-\2#')
   wt=$(mktemp -d /tmp/rm-wt.XXXXXX); rmdir "$wt"; vd=$(mktemp -d /tmp/rm-vd.XXXXXX)
   git -C /repo worktree add -q --detach "$wt" HEAD || exit 2
   git -C "$wt" apply "$(realpath "$d/patch.diff")" || { echo "$id APPLY-FAILED"; git -C /repo worktree remove --force "$wt"; exit 0; }
@@ -16,4 +18,4 @@ one() {
   echo "$id alarms=$(wc -l < "$out")"
 }
 export -f one
-(ls -d "$1"/*/r* 2>/dev/null; ls -d "$1"/*-r* 2>/dev/null) | xargs -P 5 -I{} bash -c 'one {}' | sort
+(ls -d "$1"/*/r* 2>/dev/null; ls -d "$1"/*-r* 2>/dev/null) | xargs -P 7 -I{} bash -c 'one {}' | sort
